@@ -61,8 +61,14 @@ func runC05(ctx *vh.Ctx) error {
 		if err := json.Unmarshal(ctx.Replay, &c); err != nil {
 			return err
 		}
+		if c.Special != "" {
+			return gcase5.EvaluateSpecial(ctx, &c)
+		}
 		c.CfgInitialChecked = &other
 		return gcase5.Evaluate(ctx, "C05", &c, false)
+	}
+	if err := gcase5.EvaluateSpecial(ctx, &gcase5.Case{Special: gcase5.SpecialWorkflowStream}); err != nil {
+		return err
 	}
 	n := ctx.N(6000, 60000)
 	for i := 0; i < n && ctx.TimeLeft(); i++ {
